@@ -303,7 +303,7 @@ def sk1(model):
                    'beginning (a comment token also holds the rest of its line, the line break and the '
                    'indentation of the next line): every test of a token text against '
                    'parms.comment_skip_begin / comment_skip_end is str.startswith or a comparison of the '
-                   'leading slice of that length', floor=2)
+                   'leading slice of that length', floor=1)
     marks = ('comment_skip_begin', 'comment_skip_end')
     for f in model.all_funcs():
         fn = f.node
@@ -529,4 +529,879 @@ def und1(model):
                    'the global name %s is read in %s (%s) but never bound in the module: reaching this '
                    'expression raises NameError instead of the intended behaviour' % (nm, m.name, where),
                    witness='the path that evaluates this expression')
+    return r
+
+
+# ----------------------------------------------------------------------------- IX18
+_STR_MAKERS = ('strip', 'rstrip', 'lstrip', 'join', 'get_text_expanded', 'replace')
+
+
+def ix18(model):
+    from .. import tok as T
+    from ..rdefs import reachdefs
+    r = RuleResult('IX18', 'a constant index is applied to a string that may be empty only under a test of that '
+                   'very string: (a) E.strip()[k] (also rstrip / lstrip) needs a truth test of the same stripped '
+                   'expression, not of E; (b) v[k] where every reaching definition of v is the result of strip / '
+                   'join / get_text_expanded / replace needs a truth test of v; (c) an element of '
+                   'Parser.extracted (a text flow, possibly empty) is indexed only if it is known to be '
+                   'non-empty', floor=5)
+
+    def const_idx(n):
+        i = n.slice
+        if isinstance(i, ast.UnaryOp) and isinstance(i.op, ast.USub):
+            i = i.operand
+        return isinstance(i, ast.Constant) and isinstance(i.value, int) and not isinstance(i.value, bool)
+
+    def truthy_fact(n, text):
+        def pred(e, t):
+            if t and unparse(e) == text:
+                return True
+            if isinstance(e, ast.Compare) and len(e.ops) == 1 and unparse(e.left) == 'len(%s)' % text \
+                    and isinstance(e.comparators[0], ast.Constant) and isinstance(e.comparators[0].value, int):
+                k, op = e.comparators[0].value, e.ops[0]
+                if t and ((isinstance(op, ast.Gt) and k >= 0) or (isinstance(op, ast.GtE) and k >= 1)
+                          or (isinstance(op, ast.NotEq) and k == 0) or (isinstance(op, ast.Eq) and k >= 1)):
+                    return True
+                if not t and ((isinstance(op, ast.Eq) and k == 0) or (isinstance(op, ast.Lt) and k >= 1)
+                              or (isinstance(op, ast.LtE) and k >= 0)):
+                    return True
+            if t and isinstance(e, ast.Compare) and len(e.ops) == 1 and unparse(e.left) == text \
+                    and isinstance(e.ops[0], ast.NotEq) and isinstance(e.comparators[0], ast.Constant) \
+                    and e.comparators[0].value in ('', [], ()):
+                return True
+            if t and isinstance(e, ast.Call) and any(unparse(a) == text for a in e.args):
+                # a predicate helper whose result implies that its argument is non-empty:
+                #    def ends_with_punct(s): return s and s[-1] in ...
+                rc = model.resolve_call(e)
+                if rc and rc[0] == 'func' and isinstance(rc[1].node, ast.FunctionDef):
+                    fn_ = rc[1]
+                    rets = [x for x in T.func_returns(fn_)]
+                    params = fn_.params[1:] if fn_.cls is not None and fn_.outer is None else fn_.params
+                    k = next(i for i, a in enumerate(e.args) if unparse(a) == text)
+                    if len(rets) == 1 and rets[0] is not None and k < len(params):
+                        fs = []
+                        guards.split_fact(rets[0], True, fs)
+                        if any(t2 and isinstance(e2, ast.Name) and e2.id == params[k] for e2, t2 in fs):
+                            return True
+            if t and isinstance(e, ast.Call) and isinstance(e.func, ast.Attribute) and unparse(e.func.value) == text \
+                    and e.func.attr in ('strip', 'isalpha', 'isspace', 'isdigit', 'isdecimal', 'isalnum', 'startswith',
+                                        'endswith'):
+                return e.func.attr not in ('startswith', 'endswith') or bool(e.args) and not (
+                    isinstance(e.args[0], ast.Constant) and e.args[0].value == '')
+            return False
+        return guards.has_fact(n, pred)
+
+    for f in model.all_funcs():
+        if isinstance(f.node, ast.Lambda) or f.mod.short.startswith('shell'):
+            continue
+        rd = None
+        flow_vars = set()
+        for lp in iter_scope(f.node):
+            if isinstance(lp, (ast.For, ast.comprehension)) and isinstance(lp.target, ast.Name) \
+                    and unparse(lp.iter).endswith('.extracted'):
+                flow_vars.add(lp.target.id)
+        for n in iter_scope(f.node):
+            if not (isinstance(n, ast.Subscript) and isinstance(n.ctx, ast.Load) and not isinstance(n.slice, ast.Slice)
+                    and const_idx(n)):
+                continue
+            v = n.value
+            if isinstance(v, ast.Call) and isinstance(v.func, ast.Attribute) and v.func.attr in ('strip', 'rstrip', 'lstrip'):
+                if truthy_fact(n, unparse(v)):
+                    r.ok(n, 'stripped text tested before it is indexed', nontrivial=True)
+                else:
+                    r.fail(n, '%s: %s is indexed, but no test of this stripped text dominates the access (a test '
+                           'of the unstripped text does not help: it may consist of white space only): IndexError'
+                           % (f.qname, unparse(v)[:50]),
+                           witness='inline maths that consists of & or \\\\ only: $&$')
+            elif isinstance(v, ast.Name) and v.id in flow_vars:
+                if truthy_fact(n, v.id):
+                    r.ok(n, 'text flow tested before it is indexed', nontrivial=True)
+                else:
+                    r.fail(n, '%s: the text flow %s may be empty (\\footnote{}, \\footnote{\\label{x}} leave no '
+                           'token outside multi-language mode) and is indexed without a test: IndexError'
+                           % (f.qname, v.id), witness='A\\footnote{}B')
+            elif isinstance(v, ast.Name):
+                if rd is None:
+                    rd = reachdefs(f)
+                ds = rd.defs_of(v)
+                if ds and all(k == 'assign' and isinstance(node, ast.Call) and isinstance(node.func, ast.Attribute)
+                              and node.func.attr in _STR_MAKERS for k, nm, node in ds):
+                    if truthy_fact(n, v.id):
+                        r.ok(n, '%s tested before it is indexed' % v.id, nontrivial=True)
+                    else:
+                        r.fail(n, '%s: %s is the result of %s and may be empty; it is indexed without a test of '
+                               'it: IndexError' % (f.qname, v.id, '/'.join(sorted({node.func.attr for k, nm, node in ds}))),
+                               witness='an argument that expands to nothing')
+    return r
+
+
+# ----------------------------------------------------------------------------- EM9
+def _tri_tok(e, tokname, cls):
+    """truth value (True / False / None = unknown) of a condition for a token of class `cls`"""
+    if isinstance(e, ast.UnaryOp) and isinstance(e.op, ast.Not):
+        v = _tri_tok(e.operand, tokname, cls)
+        return None if v is None else not v
+    if isinstance(e, ast.BoolOp):
+        vals = [_tri_tok(x, tokname, cls) for x in e.values]
+        if isinstance(e.op, ast.And):
+            if any(v is False for v in vals):
+                return False
+            return True if all(v is True for v in vals) else None
+        if any(v is True for v in vals):
+            return True
+        return False if all(v is False for v in vals) else None
+    if isinstance(e, ast.Name) and e.id == tokname:
+        return True
+    if isinstance(e, ast.Constant) and isinstance(e.value, bool):
+        return e.value
+    # what the class says about the text: a ParagraphToken is white space with at least two line breaks,
+    # a LanguageToken has the empty text
+    ttxt = tokname + '.txt'
+    if cls in ('ParagraphToken', 'LanguageToken'):
+        if isinstance(e, ast.Call) and isinstance(e.func, ast.Attribute) and unparse(e.func.value) == ttxt \
+                and e.func.attr == 'isspace' and not e.args:
+            return cls == 'ParagraphToken'
+        if isinstance(e, ast.Attribute) and unparse(e) == ttxt:
+            return cls == 'ParagraphToken'
+        if isinstance(e, ast.Compare) and len(e.ops) == 1 and isinstance(e.ops[0], (ast.In, ast.NotIn)) \
+                and unparse(e.comparators[0]) == ttxt and isinstance(e.left, ast.Constant) and isinstance(e.left.value, str):
+            inn = None
+            if cls == 'LanguageToken':
+                inn = e.left.value == ''
+            elif e.left.value in ('\n', ''):
+                inn = True
+            if inn is not None:
+                return inn if isinstance(e.ops[0], ast.In) else not inn
+    if isinstance(e, ast.Compare) and len(e.ops) == 1 and isinstance(e.left, ast.Call) \
+            and getattr(e.left.func, 'id', '') == 'type' and e.left.args and unparse(e.left.args[0]) == tokname:
+        c = e.comparators[0]
+        names = [unparse(x).split('.')[-1] for x in (c.elts if isinstance(c, (ast.Tuple, ast.List, ast.Set)) else [c])]
+        hit = cls in names
+        if isinstance(e.ops[0], (ast.Is, ast.Eq, ast.In)):
+            return hit
+        if isinstance(e.ops[0], (ast.IsNot, ast.NotEq, ast.NotIn)):
+            return not hit
+    if isinstance(e, ast.Call) and getattr(e.func, 'id', '') == 'isinstance' and len(e.args) == 2 \
+            and unparse(e.args[0]) == tokname:
+        c = e.args[1]
+        names = [unparse(x).split('.')[-1] for x in (c.elts if isinstance(c, ast.Tuple) else [c])]
+        return True if cls in names else None
+    return None
+
+
+def em9(model):
+    r = RuleResult('EM9', 'open maths ends at the paragraph: in the token loop of expand_math_section every branch '
+                   'that a ParagraphToken can take (whatever its other fields) reports "missing end of maths" and '
+                   'leaves the loop; none skips the token', floor=1)
+    f = model.func('mathparser.MathParser.expand_math_section')
+    loops = [s for s in f.node.body if isinstance(s, ast.While)]
+    if not loops:
+        raise AnalysisError('anchor vanished: token loop of expand_math_section')
+    lp = loops[0]
+    tokname = None
+    for s in lp.body:
+        if isinstance(s, ast.Assign) and isinstance(s.targets[0], ast.Name) and isinstance(s.value, ast.Call) \
+                and T_call_name(s.value) in ('skip_space', 'cur', 'next'):
+            tokname = s.targets[0].id
+            break
+    if tokname is None:
+        raise AnalysisError('anchor vanished: current token of the loop in expand_math_section')
+
+    def is_error_exit(body):
+        has_err = any(isinstance(c, ast.Call) and T_call_name(c) == 'latex_error' for s in body for c in ast.walk(s))
+        return has_err and always_exits(body) and any(isinstance(s, ast.Break) for s in body)
+
+    decided = False
+
+    def walk(stmts):
+        nonlocal decided
+        for s in stmts:
+            if decided:
+                return
+            if not isinstance(s, ast.If):
+                continue
+            node = s
+            while True:
+                v = _tri_tok(node.test, tokname, 'ParagraphToken')
+                if v is not False:
+                    if is_error_exit(node.body):
+                        r.ok(node, 'branch taken by a ParagraphToken reports the open maths and breaks', nontrivial=True)
+                    else:
+                        r.fail(node, 'a ParagraphToken can take the branch `%s`, which does not report the open '
+                               'maths: unterminated maths runs on beyond the end of its paragraph'
+                               % unparse(node.test)[:70],
+                               witness='A $x \\par B\\n\\nC  (paragraph break produced by a macro)')
+                    if v is True:
+                        decided = True
+                        return
+                if len(node.orelse) == 1 and isinstance(node.orelse[0], ast.If):
+                    node = node.orelse[0]
+                    continue
+                if node.orelse and v is not True:
+                    walk(node.orelse)
+                break
+    walk(lp.body)
+    if not decided and not r.findings:
+        r.fail(lp, 'no branch of the loop is certainly taken by a ParagraphToken: open maths does not end at '
+               'the paragraph', witness='A $x\\n\\nB')
+    return r
+
+
+def T_call_name(c):
+    f = c.func
+    return f.attr if isinstance(f, ast.Attribute) else getattr(f, 'id', '')
+
+
+# ----------------------------------------------------------------------------- MOK1
+def mok1(model):
+    r = RuleResult('MOK1', 'operator words: every key of a math_op_text table (the word spoken for a leading '
+                   'operator) other than the default None is an entry of Parameters.math_operators - a key '
+                   'that no operator token can have is dead and its operator silently gets the default word - '
+                   'and the tables of all languages have the same keys', floor=3)
+    m = model.mod('parameters')
+    ops = None
+    for n in ast.walk(m.tree):
+        if isinstance(n, ast.Assign) and len(n.targets) == 1 and unparse(n.targets[0]) == 'self.math_operators' \
+                and isinstance(n.value, (ast.List, ast.Tuple, ast.Set)):
+            try:
+                ops = set(ast.literal_eval(n.value))
+            except ValueError:
+                ops = None
+    if ops is None:
+        raise AnalysisError('anchor vanished: literal list Parameters.math_operators')
+    tabs = []
+    for n in ast.walk(m.tree):
+        if isinstance(n, ast.keyword) and n.arg == 'math_op_text' and isinstance(n.value, ast.Dict):
+            try:
+                tabs.append((n.value, ast.literal_eval(n.value)))
+            except ValueError:
+                r.undec(n.value, 'math_op_text table is not a literal')
+    if not tabs:
+        raise AnalysisError('anchor vanished: math_op_text tables')
+    allkeys = set()
+    for node, d in tabs:
+        allkeys |= set(d)
+    for node, d in tabs:
+        bad = sorted(k for k in d if k is not None and k not in ops)
+        missing = sorted((k for k in allkeys - set(d)), key=repr)
+        if None not in d:
+            r.fail(node, 'the table has no default entry None: KeyError for an operator without a word')
+        elif bad:
+            r.fail(node, 'the key %r is not an entry of math_operators: no operator token has this text, so the '
+                   'operator it was meant for gets the default word %r' % (bad[0], d[None]),
+                   witness='\\begin{align} a &= b \\\\ &\\times c \\end{align} in that language')
+        elif missing:
+            r.fail(node, 'the table lacks the key %r that the table of another language has: that operator '
+                   'gets the default word %r here' % (missing[0], d[None]),
+                   witness='an aligned section that starts with that operator')
+        else:
+            r.ok(node, '%d operator keys, all in math_operators, same as the sibling tables' % (len(d) - 1),
+                 nontrivial=True)
+    return r
+
+
+# ----------------------------------------------------------------------------- SPC1
+# horizontal spaces of LaTeX / amsmath that produce a visible positive space (LaTeX2e reference, amsmath docs);
+# negative spaces are listed so that a table entry is never missing from the reference
+LATEX_POSITIVE_SPACES = ('\\quad', '\\qquad', '\\enspace', '\\enskip', '\\thinspace', '\\medspace', '\\thickspace')
+LATEX_NEGATIVE_SPACES = ('\\negthinspace', '\\negmedspace', '\\negthickspace', '\\!')
+
+
+def _latex_defs(model):
+    """(macro name, body text, string node) of every \\newcommand / \\renewcommand line in a string literal
+    assigned to a name macros_latex"""
+    import re
+    out = []
+    pat = re.compile(r'\\(?:re)?newcommand\{(\\[a-zA-Z@]+|\\.)\}(?:\[\d\](?:\[[^\]]*\])?)?\{(.*)\}\s*$')
+    for m in model.mods.values():
+        for n in ast.walk(m.tree):
+            if isinstance(n, ast.Assign) and len(n.targets) == 1 and unparse(n.targets[0]).split('.')[-1] in ('macros_latex', 'macro_defs_latex') \
+                    and isinstance(n.value, ast.Constant) and isinstance(n.value.value, str):
+                for line in n.value.value.splitlines():
+                    mm = pat.search(line.strip())
+                    if mm:
+                        out.append((mm.group(1), mm.group(2), n))
+    return out
+
+
+def spc1(model):
+    from .. import tables
+    r = RuleResult('SPC1', 'a positive horizontal space of LaTeX (\\quad, \\qquad, \\enspace, \\thinspace, \\medspace, '
+                   '\\thickspace) that the filter defines as a LaTeX macro expands to exactly one entry of '
+                   'Parameters.math_space: only those count as space at the edge of a formula (a plain blank is '
+                   'skipped by the maths parser)', floor=3)
+    ms, node = tables.parameters_table(model, 'math_space')
+    if not ms:
+        raise AnalysisError('anchor vanished: literal list Parameters.math_space')
+    defs_ = _latex_defs(model)
+    if not defs_:
+        raise AnalysisError('anchor vanished: macros_latex strings')
+    for name, body, n in defs_:
+        if name in LATEX_POSITIVE_SPACES:
+            if body in ms:
+                r.ok(n, '%s -> %s (math space)' % (name, body), nontrivial=True)
+            else:
+                r.fail(n, '%s is defined as {%s}, which is not an entry of math_space: a formula that starts or '
+                       'ends with it loses its blank' % (name, body),
+                       witness='A$x\\thickspace $B', stmt='macros_latex ' + name)
+    return r
+
+
+# ----------------------------------------------------------------------------- OPT1
+def opt1(model):
+    r = RuleResult('OPT1', 'tex2txt applies each option on its own: a statement `if opts.X:` that configures the '
+                   'parameters is not the else-branch of the test of a different option (with `elif`, one option '
+                   'silently switches the other off)', floor=3)
+    f = model.func('tex2txt.tex2txt')
+    opar = f.params[1] if len(f.params) > 1 else 'opts'
+
+    def opt_of(test):
+        names = {x.attr for x in ast.walk(test) if isinstance(x, ast.Attribute) and isinstance(x.value, ast.Name)
+                 and x.value.id == opar}
+        return names
+    for n in iter_scope(f.node):
+        if not isinstance(n, ast.If):
+            continue
+        mine = opt_of(n.test)
+        if not mine:
+            continue
+        par = getattr(n, '_parent', None)
+        if isinstance(par, ast.If) and n in par.orelse and len(par.orelse) == 1:
+            other = opt_of(par.test)
+            if other and not (other & mine):
+                r.fail(n, 'the option %s is evaluated only if %s is off (elif): giving both silently drops %s'
+                       % ('/'.join(sorted(mine)), '/'.join(sorted(other)), '/'.join(sorted(mine))),
+                       witness='Options(seqs=True, nosp=True)')
+                continue
+        r.ok(n, 'option %s tested on its own' % '/'.join(sorted(mine)), nontrivial=True)
+    return r
+
+
+# ----------------------------------------------------------------------------- SB6
+def sb6(model):
+    r = RuleResult('SB6', 'a definition reads nothing behind itself: in parse_def_macro and h_newcommand no call '
+                   'moves the token buffer (skip_space / next / look_ahead-and-drop) after the last argument of '
+                   'the definition has been read; white space behind \\def...{...} is ordinary text, exactly as '
+                   'when the definition stands in a --defs file', floor=2)
+    for q, bufname in (('parser.Parser.parse_def_macro', None), ('handlers.h_newcommand', None)):
+        if not model.has_func(q):
+            raise AnalysisError('anchor vanished: function ' + q)
+        f = model.func(q)
+        bname = next((p for p in f.params if p == 'buf'), None)
+        if bname is None:
+            r.undec(f.node, 'buffer parameter of %s not recognised' % q)
+            continue
+        # last statement (top level of the body) that reads an argument: a call of arg_buffer / expand_arguments
+        body = f.node.body
+        last_read = -1
+        for i, s in enumerate(body):
+            if any(isinstance(c, ast.Call) and T_call_name(c) in ('arg_buffer', 'expand_arguments', 'get_text_expanded')
+                   for c in ast.walk(s)):
+                last_read = i
+        moved = None
+        for s in body[last_read + 1:]:
+            for c in ast.walk(s):
+                if isinstance(c, ast.Call) and isinstance(c.func, ast.Attribute) and unparse(c.func.value) == bname \
+                        and c.func.attr in ('skip_space', 'next', 'back'):
+                    moved = c
+        if moved is not None:
+            r.fail(moved, '%s moves the token buffer (%s) after the definition has been read: text or white '
+                   'space behind the definition is swallowed' % (f.qname, unparse(moved)),
+                   witness='A\\def\\cc{C} B  gives AB')
+        else:
+            r.ok(f.node, 'no buffer movement behind the last argument', nontrivial=True)
+    return r
+
+
+# ----------------------------------------------------------------------------- LT3
+# functions that may call Buffer.skip_space() while Buffer.is_space() accepts LanguageToken, each read and
+# confirmed: what they skip is followed by an argument of the same construct, or the loss is recorded
+LT3_ALLOWED = {
+    'mathparser.MathParser.expand_math_section': 'inside maths: the tokens between the delimiters are consumed anyway',
+    'parser.Parser.arg_buffer': 'in front of a mandatory argument that the caller is about to read',
+    'parser.Parser.parse_newline_option': 'skips only after look_ahead() has seen the [ of the option',
+    'parser.Parser.parse_keyvals_list': 'inside an option list',
+    'parser.Parser.parse_def_macro': 'between \\def, the macro name and the body',
+}
+
+
+def _only_called_from(model, f, allowed, depth=0):
+    """every call site of f lies in an allowed function (or in a helper for which the same holds)"""
+    from ..callgraph import callgraph
+    sites = callgraph(model).callers.get(f.qname, [])
+    if not sites or depth > 4:
+        return False
+    # only calls by name: a handler that is reached through a table slot (mac.repl(...)) has no fixed caller
+    if any(T_call_name(c) != f.name for c in sites):
+        return False
+    for c in sites:
+        g = getattr(c, '_fn', None)
+        if g is None:
+            return False
+        q = g.qname
+        while q not in allowed and '.' in q and model.has_func(q.rsplit('.', 1)[0]):
+            q = q.rsplit('.', 1)[0]
+        if q in allowed:
+            continue
+        if not _only_called_from(model, g, allowed, depth + 1):
+            return False
+    return True
+
+
+def lt3(model):
+    r = RuleResult('LT3', 'who may call Buffer.skip_space(): it drops every token that is_space() accepts, and '
+                   'that includes the LanguageToken which closes a \\foreignlanguage argument; only the confirmed '
+                   'call sites (table LT3_ALLOWED in the checker) use it, nothing else - in particular no macro '
+                   'handler looks for "the next visible token" with it', floor=5)
+    isp = model.func('scanner.Buffer.is_space')
+    accepts = any(unparse(x).endswith('LanguageToken') for n in ast.walk(isp.node)
+                  if isinstance(n, (ast.Tuple, ast.List, ast.Set)) for x in n.elts)
+    if not accepts:
+        r.ok(isp.node, 'is_space() does not accept LanguageToken: skip_space() is harmless', nontrivial=True)
+        r.instances += 5
+        return r
+    for f in model.all_funcs():
+        if isinstance(f.node, ast.Lambda) or f.qname.startswith('scanner.Buffer.'):
+            continue
+        for n in iter_scope(f.node):
+            if isinstance(n, ast.Call) and isinstance(n.func, ast.Attribute) and n.func.attr == 'skip_space':
+                q = f.qname
+                base = q
+                while base not in LT3_ALLOWED and '.' in base and model.has_func(base.rsplit('.', 1)[0]):
+                    base = base.rsplit('.', 1)[0]       # nested helper of an allowed function
+                if base not in LT3_ALLOWED and _only_called_from(model, f, set(LT3_ALLOWED)):
+                    r.ok(n, 'helper that is called only from confirmed functions', nontrivial=True, sample=False)
+                elif base in LT3_ALLOWED:
+                    r.ok(n, 'confirmed call site: ' + LT3_ALLOWED[base], nontrivial=True, sample=False)
+                else:
+                    r.fail(n, '%s calls skip_space(): a LanguageToken in front of the next visible token is '
+                           'dropped, e.g. the one that closes a \\foreignlanguage argument - the rest of the '
+                           'document is labelled with the foreign language' % q,
+                           witness='\\foreignlanguage{german}{Wort\\xspace} more english text')
+    return r
+
+
+# ----------------------------------------------------------------------------- LA1
+def la1(model):
+    r = RuleResult('LA1', 'Buffer.look_ahead() leaves the buffer unchanged: on every path to a return, whatever '
+                   'was removed with next() / pop() has been pushed back with back() (the tokens skipped are '
+                   'white space for the caller, but a LanguageToken among them carries the language switch)',
+                   floor=1)
+    f = model.func('scanner.Buffer.look_ahead')
+
+    def pops(node):
+        return any(isinstance(c, ast.Call) and isinstance(c.func, ast.Attribute) and c.func.attr in ('next', 'pop')
+                   for c in ast.walk(node))
+
+    def is_back(s):
+        return isinstance(s, ast.Expr) and isinstance(s.value, ast.Call) and isinstance(s.value.func, ast.Attribute) \
+            and s.value.func.attr in ('back', 'extend') and s.value.args
+
+    bad = []
+
+    def walk(stmts, dirty):
+        for s in stmts:
+            if isinstance(s, ast.Return):
+                if dirty or (s.value is not None and pops(s.value)):
+                    bad.append(s)
+                return dirty
+            if is_back(s):
+                dirty = False
+                continue
+            if isinstance(s, (ast.While, ast.For)):
+                inner = dirty or pops(s)
+                walk(s.body, inner)
+                walk(s.orelse, inner)
+                dirty = inner
+                continue
+            if isinstance(s, ast.If):
+                d0 = dirty or pops(s.test)
+                d1 = walk(s.body, d0)
+                # `if taken: self.back(taken)`: in the other branch nothing had been taken
+                nothing = isinstance(s.test, ast.Name) and any(
+                    is_back(b) and unparse(b.value.args[0]) == s.test.id for b in s.body) and not pops(s.test)
+                d2 = walk(s.orelse, False if nothing else d0)
+                dirty = d1 or d2
+                continue
+            if pops(s):
+                dirty = True
+        return dirty
+    end_dirty = walk(f.node.body, False)
+    if bad:
+        r.fail(bad[0], 'look_ahead returns on a path on which tokens have been taken from the buffer and not '
+               'pushed back: the caller only wanted to look, the skipped tokens (a LanguageToken among them) '
+               'are lost', witness='\\foreignlanguage{german}{text\\\\} followed by a blank line')
+    elif end_dirty:
+        r.fail(f.node, 'look_ahead can end without pushing back what it removed')
+    else:
+        r.ok(f.node, 'every return is reached with the buffer restored', nontrivial=True)
+    return r
+
+
+# ----------------------------------------------------------------------------- LN2
+def ln2(model):
+    r = RuleResult('LN2', 'the end of a line read from a file is removed with rstrip / strip / splitlines, never '
+                   'by cutting one character (x[:-1]): the last line of a file need not end with a line break',
+                   floor=1)
+    for f in model.all_funcs():
+        if isinstance(f.node, ast.Lambda):
+            continue
+        srcs = set()
+        hit = False
+        for n in iter_scope(f.node):
+            if isinstance(n, ast.Call) and isinstance(n.func, ast.Attribute) and n.func.attr == 'readlines':
+                hit = True
+                par = getattr(n, '_parent', None)
+                if isinstance(par, ast.Assign) and isinstance(par.targets[0], ast.Name):
+                    srcs.add(par.targets[0].id)
+        if not hit:
+            continue
+        bad = None
+        for n in iter_scope(f.node):
+            # element variables of loops / comprehensions over the lines
+            it = tgt = None
+            if isinstance(n, (ast.For, ast.comprehension)):
+                it, tgt = n.iter, n.target
+            if it is None or not isinstance(tgt, ast.Name):
+                continue
+            over_lines = (isinstance(it, ast.Name) and it.id in srcs) or any(
+                isinstance(c, ast.Call) and isinstance(c.func, ast.Attribute) and c.func.attr == 'readlines'
+                for c in ast.walk(it))
+            if not over_lines:
+                continue
+            scope = n if isinstance(n, ast.For) else getattr(n, '_parent', n)
+            for x in ast.walk(scope):
+                if isinstance(x, ast.Subscript) and isinstance(x.slice, ast.Slice) and isinstance(x.value, ast.Name) \
+                        and x.value.id == tgt.id and x.slice.lower is None and x.slice.upper is not None \
+                        and unparse(x.slice.upper) in ('-1', 'len(%s) - 1' % tgt.id):
+                    bad = x
+        if bad is not None:
+            r.fail(bad, '%s cuts the last character of every line read (%s): a last line without a line break '
+                   'loses a character of its text' % (f.qname, unparse(bad)),
+                   witness='a replacement file whose last line "zB & zum Beispiel" has no final line break')
+        else:
+            r.ok(f.node, 'lines of the file are not shortened by a fixed slice', nontrivial=True)
+    return r
+
+
+# ----------------------------------------------------------------------------- LB1
+def lb1(model):
+    r = RuleResult('LB1', 'HTML report: the line number shown for a match is the 0-based line index '
+                   'tex.count("\\n", 0, start) plus exactly 1, at every place where it is shown (title of the '
+                   'highlight, list of overlapping messages)', floor=1)
+    f = model.func('shell.genhtml.generate_html')
+    mod_nodes = list(ast.walk(f.mod.tree))
+    # h.lin = h.beglin + k ; h.beglin = tex.count(...) + k0
+    def const_off(e, name):
+        """k if e is <name> + k / <name>, else None"""
+        if unparse(e) == name:
+            return 0
+        if isinstance(e, ast.BinOp) and isinstance(e.op, (ast.Add, ast.Sub)) and isinstance(e.right, ast.Constant) \
+                and isinstance(e.right.value, int) and unparse(e.left) == name:
+            return e.right.value if isinstance(e.op, ast.Add) else -e.right.value
+        if isinstance(e, ast.BinOp) and isinstance(e.op, ast.Add) and isinstance(e.left, ast.Constant) \
+                and isinstance(e.left.value, int) and unparse(e.right) == name:
+            return e.left.value
+        return None
+    lin_def = [n for n in mod_nodes if isinstance(n, ast.Assign) and isinstance(n.targets[0], ast.Attribute)
+               and n.targets[0].attr == 'lin']
+    if len(lin_def) != 1:
+        r.undec(f.node, 'the line index of a match is not kept in one attribute .lin assigned once')
+        r.instances = 1
+        return r
+    obj = unparse(lin_def[0].targets[0].value)
+    v = lin_def[0].value
+    base = None
+    if isinstance(v, ast.Call) and T_call_name(v) == 'count':
+        base = 0
+    else:
+        for nm in {unparse(x) for x in ast.walk(v) if isinstance(x, ast.Attribute)}:
+            k = const_off(v, nm)
+            if k is None:
+                continue
+            src = [n for n in mod_nodes if isinstance(n, ast.Assign) and unparse(n.targets[0]) == nm
+                   and n.lineno < lin_def[0].lineno and getattr(n, '_fn', None) is getattr(lin_def[0], '_fn', None)]
+            if len(src) == 1:
+                sv = src[0].value
+                if isinstance(sv, ast.Call) and T_call_name(sv) == 'count':
+                    base = k
+                elif isinstance(sv, ast.BinOp) and isinstance(sv.left, ast.Call) and T_call_name(sv.left) == 'count' \
+                        and isinstance(sv.right, ast.Constant) and isinstance(sv.op, (ast.Add, ast.Sub)):
+                    base = k + (sv.right.value if isinstance(sv.op, ast.Add) else -sv.right.value)
+    if base is None:
+        r.undec(lin_def[0], 'line index of a match is not count("\\n") + constant')
+        r.instances = 1
+        return r
+    for n in mod_nodes:
+        if isinstance(n, ast.Attribute) and n.attr == 'lin' and isinstance(n.ctx, ast.Load):
+            name = unparse(n)
+            par = getattr(n, '_parent', None)
+            e = par if isinstance(par, ast.BinOp) else n
+            k = const_off(e, name)
+            if k is None:
+                r.undec(n, 'use of the line index in an expression that is not index + constant')
+                continue
+            if base + k == 1:
+                r.ok(n, 'shown line = 0-based index %+d %+d = index + 1' % (base, k), nontrivial=True)
+            else:
+                r.fail(e, 'the line number shown here is the 0-based line index %+d: messages are listed %s'
+                       % (base + k, 'one line too low' if base + k > 1 else 'one line too high'),
+                       witness='two overlapping messages on one word, --output html')
+    return r
+
+
+# ----------------------------------------------------------------------------- PS7
+_ITER_MAKERS = {'iter', 'map', 'filter', 'zip', 'enumerate', 'reversed', 'open'}
+
+
+def ps7(model):
+    r = RuleResult('PS7', 'no iterator lives at module or class level and is advanced by a function: an iterator '
+                   '(generator expression, iter / map / zip / filter / enumerate / reversed object, itertools.*, '
+                   'open file) remembers how far it was consumed, so the second document continues where the '
+                   'first stopped', floor=0)
+    for m in model.mods.values():
+        itmods = {loc for loc, tgt in m.imports.items() if tgt[0] == 'mod' and tgt[1] == 'itertools'}
+        itsyms = {loc for loc, tgt in m.imports.items() if tgt[0] == 'sym' and tgt[1] == 'itertools'}
+
+        def is_iter(v):
+            if isinstance(v, ast.GeneratorExp):
+                return 'generator expression'
+            if isinstance(v, ast.Call):
+                f = v.func
+                if isinstance(f, ast.Name) and (f.id in _ITER_MAKERS or f.id in itsyms):
+                    return f.id + '()'
+                if isinstance(f, ast.Attribute) and isinstance(f.value, ast.Name) and f.value.id in itmods:
+                    return 'itertools.%s()' % f.attr
+            return None
+        holders = {}
+        scopes = [(None, m.tree.body)] + [(st, st.body) for st in m.tree.body if isinstance(st, ast.ClassDef)]
+        for cls, body in scopes:
+            for st in body:
+                if isinstance(st, ast.Assign) and len(st.targets) == 1 and isinstance(st.targets[0], ast.Name):
+                    kind = is_iter(st.value)
+                    if kind:
+                        holders[st.targets[0].id] = (st, kind, cls)
+        r.instances += len([st for st in m.tree.body if isinstance(st, ast.Assign)])
+        for name, (st, kind, cls) in holders.items():
+            users = []
+            for f in m.funcs.values() if cls is None else []:
+                pass
+            for f in model.all_funcs():
+                if f.mod is not m:
+                    continue
+                for n in iter_scope(f.node):
+                    if cls is None and isinstance(n, ast.Name) and n.id == name and isinstance(n.ctx, ast.Load):
+                        # not shadowed by a local binding
+                        if not any(isinstance(x, ast.Name) and x.id == name and isinstance(x.ctx, ast.Store)
+                                   for x in iter_scope(f.node)) and name not in getattr(f, 'params', []):
+                            users.append(n)
+                    if cls is not None and isinstance(n, ast.Attribute) and n.attr == name and isinstance(n.ctx, ast.Load) \
+                            and isinstance(n.value, ast.Name) and n.value.id in ('self', 'cls', cls.name):
+                        users.append(n)
+            if users:
+                r.fail(users[0], 'the %s-level name %s holds an iterator (%s) and is used here: every call '
+                       'advances the same iterator, results depend on what was processed before'
+                       % ('class' if cls is not None else 'module', name, kind),
+                       witness='two documents in one process')
+            else:
+                r.ok(st, 'iterator %s is not used by any function' % name, nontrivial=True)
+    return r
+
+
+# ----------------------------------------------------------------------------- REG1
+# package modules that the default selection '*' leaves out on purpose, with the reason given in the repository
+REG1_NOT_DEFAULT = {
+    'cleveref': 'warns when loaded without the poorman option (comment in packages/__init__.py)',
+}
+
+
+def reg1(model):
+    r = RuleResult('REG1', 'the default package selection "*" names every package module of the distribution (file '
+                   'yalafi/packages/<name>.py, with - for _), apart from the exceptions listed with their reason in '
+                   'the checker; every name in the table has its module file', floor=10)
+    m = model.mod('packages')
+    tab = None
+    node = None
+    for st in m.tree.body:
+        if isinstance(st, ast.Assign) and unparse(st.targets[0]) == 'load_table' and isinstance(st.value, ast.Dict):
+            try:
+                tab = ast.literal_eval(st.value)
+                node = st
+            except ValueError:
+                pass
+    if tab is None or '*' not in tab:
+        raise AnalysisError('anchor vanished: literal load_table["*"] in yalafi/packages/__init__.py')
+    files = {mm.short.split('.', 1)[1] for mm in model.mods.values()
+             if mm.short.startswith('packages.') and mm.short.count('.') == 1}
+    listed = {x.replace('-', '_') for x in tab['*']}
+    for f in sorted(files):
+        if f in listed:
+            r.ok_plain('package module %s' % f, 'listed in load_table["*"]', nontrivial=True)
+        elif f in REG1_NOT_DEFAULT:
+            r.exception('packages.' + f, REG1_NOT_DEFAULT[f])
+            r.ok_plain('package module %s' % f, 'named exception')
+        else:
+            r.fail(node, 'the package module %s is not in load_table["*"]: with the default option --packages "*" '
+                   '(and in the scan for included files, where \\usepackage is inactive) its macros and '
+                   'environments are unknown' % f, stmt='load_table * lacks ' + f,
+                   witness='a document that uses the environments of that package, default options')
+    for x in sorted(listed - files):
+        r.fail(node, 'load_table["*"] names %s, for which there is no module file: "could not load module"' % x,
+               stmt='load_table * names ' + x)
+    return r
+
+
+# ----------------------------------------------------------------------------- CK13
+def ck13(model):
+    r = RuleResult('CK13', 'the shell\'s own checks run for every text part that is proofread: inside the loop over '
+                   'the parts of run_proofreader_options the calls of create_single_letter_matches and '
+                   'create_equation_punct_messages stand under no condition (whether a check is active is '
+                   'decided inside it, from its option alone)', floor=2)
+    f = model.func('shell.proofreader.run_proofreader_options')
+    for name in ('create_single_letter_matches', 'create_equation_punct_messages'):
+        calls = [n for n in iter_scope(f.node) if isinstance(n, ast.Call) and T_call_name(n) == name]
+        if not calls:
+            raise AnalysisError('anchor vanished: call of %s in run_proofreader_options' % name)
+        for c in calls:
+            loop = None
+            conds = []
+            p = getattr(c, '_parent', None)
+            child = c
+            while p is not None and p is not f.node:
+                if isinstance(p, ast.If) and (child in p.body or child in p.orelse):
+                    conds.append(p)
+                if isinstance(p, ast.IfExp) and child is not p.test:
+                    conds.append(p)
+                if isinstance(p, (ast.For, ast.While)) and loop is None:
+                    loop = p
+                    break
+                child = p
+                p = getattr(p, '_parent', None)
+            # early `continue` in front of the call, other than the skip of blank parts
+            skips = []
+            if loop is not None:
+                for s in loop.body:
+                    if s.lineno >= c.lineno:
+                        break
+                    if isinstance(s, ast.If) and any(isinstance(x, ast.Continue) for x in ast.walk(s)):
+                        t = unparse(s.test)
+                        if not (t.startswith('not ') and t.endswith('.strip()')):
+                            skips.append(s)
+            if conds or skips:
+                n0 = (conds + skips)[0]
+                r.fail(c, '%s runs only under the condition %s: for the other parts its messages are silently '
+                       'missing' % (name, unparse(n0.test)[:60]),
+                       witness='--multi-language with a short foreign part that contains an isolated letter')
+            else:
+                r.ok(c, '%s is called for every non-blank part' % name, nontrivial=True)
+    return r
+
+
+# ----------------------------------------------------------------------------- SKP1
+def skp1(model):
+    import copy as _copy
+    r = RuleResult('SKP1', 'the loop of expand_macro that skips white space behind a control word never takes a '
+                   'ParagraphToken (nor a LanguageToken): its condition is false for these token classes whatever '
+                   'their text is - a paragraph token may consist of a line break, blanks and a line break', floor=1)
+    f = model.func('parser.Parser.expand_macro')
+    isp = model.func('scanner.Buffer.is_space')
+    isp_ret = [n.value for n in iter_scope(isp.node) if isinstance(n, ast.Return) and n.value is not None]
+    isp_par = isp.params[1] if len(isp.params) > 1 else 'tok'
+    loops = [n for n in iter_scope(f.node) if isinstance(n, ast.While)
+             and any(isinstance(c, ast.Call) and T_call_name(c) == 'next' for s in n.body for c in ast.walk(s))]
+    if not loops:
+        calls = [c for c in iter_scope(f.node) if isinstance(c, ast.Call) and T_call_name(c) == 'skip_space']
+        if calls:
+            r.fail(calls[0], 'expand_macro skips the space behind a macro name with skip_space(), which also '
+                   'drops LanguageTokens (as long as is_space() accepts them)',
+                   witness='\\foreignlanguage{german}{\\LaTeX} more english text')
+        else:
+            r.undec(f.node, 'space-skipping loop of expand_macro not recognised')
+        r.instances = max(r.instances, 1)
+        return r
+    lp = loops[0]
+    TOK = '__tok__'
+
+    class _N(ast.NodeTransformer):
+        def visit_Call(self, n):
+            self.generic_visit(n)
+            if isinstance(n.func, ast.Attribute) and n.func.attr == 'cur' and not n.args:
+                return ast.Name(id=TOK, ctx=ast.Load())
+            if isinstance(n.func, ast.Attribute) and n.func.attr == 'is_space' and len(n.args) == 1 and len(isp_ret) == 1:
+                body = _copy.deepcopy(isp_ret[0])
+
+                class _P(ast.NodeTransformer):
+                    def visit_Name(self, m):
+                        return _copy.deepcopy(n.args[0]) if m.id == isp_par else m
+                return _P().visit(body)
+            return n
+
+        def visit_NamedExpr(self, n):
+            self.generic_visit(n)
+            return n.value
+
+        def visit_Name(self, n):
+            return ast.Name(id=TOK, ctx=ast.Load()) if n.id in walrus else n
+    walrus = {x.target.id for x in ast.walk(lp.test) if isinstance(x, ast.NamedExpr)}
+    # `while True: cur = buf.cur(); if <stop>: break; buf.next()`: a token is taken if the loop test holds and
+    # no stop condition in front of next() does
+    parts = [lp.test]
+    for st_ in lp.body:
+        if any(isinstance(c, ast.Call) and T_call_name(c) == 'next' for c in ast.walk(st_)):
+            break
+        if isinstance(st_, ast.Assign) and len(st_.targets) == 1 and isinstance(st_.targets[0], ast.Name) \
+                and isinstance(st_.value, ast.Call) and T_call_name(st_.value) == 'cur':
+            walrus.add(st_.targets[0].id)
+        elif isinstance(st_, ast.If) and not st_.orelse and len(st_.body) == 1 and isinstance(st_.body[0], ast.Break):
+            parts.append(ast.UnaryOp(op=ast.Not(), operand=st_.test))
+        else:
+            parts = None
+            break
+    if parts is None:
+        r.undec(lp, 'space-skipping loop of expand_macro has a form that is not interpreted')
+        r.instances = max(r.instances, 1)
+        return r
+    test = parts[0] if len(parts) == 1 else ast.BoolOp(op=ast.And(), values=parts)
+    cond = _N().visit(_copy.deepcopy(test))
+    ast.fix_missing_locations(cond)
+    for cls in ('ParagraphToken', 'LanguageToken'):
+        v = _tri_tok(cond, TOK, cls)
+        if v is False:
+            r.ok(lp, 'the skip condition is false for every %s' % cls, nontrivial=True)
+        elif v is None and cls == 'LanguageToken':
+            r.undec(lp, 'skip condition not decided for LanguageToken: %s' % unparse(lp.test)[:70])
+        else:
+            r.fail(lp, 'the loop that skips space behind a macro name may take a %s (its condition %s is not '
+                   'false for that class): %s' % (cls, unparse(lp.test)[:70],
+                                                   'a control word at the end of a paragraph that is followed by a '
+                                                   'line of blanks glues two paragraphs' if cls == 'ParagraphToken'
+                                                   else 'the token that closes a \\foreignlanguage argument is dropped'),
+                   witness='A \\LaTeX\\n  \\nB' if cls == 'ParagraphToken'
+                   else '\\foreignlanguage{german}{\\LaTeX} more english text')
+    return r
+
+
+# ----------------------------------------------------------------------------- SC9
+def sc9(model):
+    r = RuleResult('SC9', 'the scanner covers the whole text: Scanner.scan starts at position 0 (the only '
+                   'assignment of self.pos in scan is the literal 0) and ends at max_pos = len(latex); no character '
+                   'is skipped in front of the first token', floor=2)
+    f = model.func('scanner.Scanner.scan')
+    lat = f.params[1] if len(f.params) > 1 else 'latex'
+    pos_as = [n for n in iter_scope(f.node) if isinstance(n, (ast.Assign, ast.AugAssign))
+              and any(unparse(t) == 'self.pos' for t in (n.targets if isinstance(n, ast.Assign) else [n.target]))]
+    if not pos_as:
+        raise AnalysisError('anchor vanished: initialisation of self.pos in Scanner.scan')
+    for n in pos_as:
+        if isinstance(n, ast.Assign) and isinstance(n.value, ast.Constant) and n.value.value == 0 \
+                and not isinstance(n.value.value, bool) and getattr(n, '_parent', None) is f.node:
+            r.ok(n, 'scan starts at position 0', nontrivial=True)
+        else:
+            r.fail(n, 'Scanner.scan sets the start position to %s: characters in front of it belong to no token '
+                   'and vanish from the output' % unparse(n.value)[:50], witness="'\\ufeffA' or any text")
+    mx = [n for n in iter_scope(f.node) if isinstance(n, ast.Assign) and unparse(n.targets[0]) == 'self.max_pos']
+    if len(mx) == 1 and unparse(mx[0].value) == 'len(%s)' % lat and getattr(mx[0], '_parent', None) is f.node:
+        r.ok(mx[0], 'scan ends at len(%s)' % lat, nontrivial=True)
+    else:
+        r.fail(mx[0] if mx else f.node, 'Scanner.scan does not scan up to len(%s)' % lat)
     return r
